@@ -5,11 +5,12 @@
 //
 //	base = [1000 1001 … | vals … | 1000+k …],  vs = base[pre : pre+n : pre+n+extra]
 //
-// (pre = -1: vs is nil).  A returned slice is printed as the view  off:len:cls  where off is the
-// index of its first element in base (measured with unsafe pointer arithmetic; "-" when len is 0,
-// "ext" when it does not point into base), and cls is measured, not computed: the harness appends
-// a sentinel to the returned slice and reports 1 when an element of vs changed (then restores base).
-// Capacities are compared through cls only.
+// (pre = -1: vs is nil).  A returned slice is printed as the view  off:len:cap:cls  where off is
+// the index in base of the slot its data pointer addresses (measured with unsafe pointer
+// arithmetic; "-" when cap is 0, "ext" when it does not point into base), cap is cap(r), and cls is
+// measured, not computed: the harness appends a sentinel to the returned slice and reports 1 when
+// an element of vs changed (then restores base).  The exact capacity is what "capacity-clipped"
+// is judged by; cls is kept as the independent, measured observation of the harm.
 //
 //	P pre extra vals mask | view result-elements base-after        Partition, keep(v) = bit v of mask
 //	R pre extra vals k    | base-after                             Rotate
@@ -28,6 +29,7 @@ package main
 
 import (
 	"fmt"
+	"math"
 	"runtime"
 	"slices"
 	"strconv"
@@ -112,13 +114,13 @@ func mk(pre, extra int, vals []int) (base, vs []int) {
 }
 
 func off(base, r []int) string {
-	if len(r) == 0 {
+	if cap(r) == 0 {
 		return "-"
 	}
 	if len(base) == 0 {
 		return "ext"
 	}
-	d := int64(uintptr(unsafe.Pointer(&r[0]))) - int64(uintptr(unsafe.Pointer(&base[0])))
+	d := int64(uintptr(unsafe.Pointer(unsafe.SliceData(r)))) - int64(uintptr(unsafe.Pointer(&base[0])))
 	if d < 0 || d%8 != 0 || d >= int64(8*len(base)) {
 		return "ext"
 	}
@@ -140,7 +142,7 @@ func cls(base []int, pre, n int, r []int) string {
 }
 
 func view(base []int, pre, n int, r []int) string {
-	return off(base, r) + ":" + strconv.Itoa(len(r)) + ":" + cls(base, pre, n, r)
+	return off(base, r) + ":" + strconv.Itoa(len(r)) + ":" + strconv.Itoa(cap(r)) + ":" + cls(base, pre, n, r)
 }
 
 func views(base []int, pre, n int, rs [][]int) string {
@@ -285,6 +287,23 @@ func main() {
 						}
 						g.Emit(line("R", l, vals, k), n >= 2, tag)
 					}
+				}
+			}
+			// machine integers: every function with arguments at and next to the ends of int
+			// (the code computes i+n, len-n, i+k, len+n-1 on them)
+			for n := 0; n <= 4; n++ {
+				vals := iota(n)
+				ext := []int{math.MinInt, math.MinInt + 1, math.MinInt + n, math.MinInt + n + 1, -1 << 62, -1<<62 - 1,
+					-1 << 32, -1 << 31, 1<<31 - 1, 1 << 32, 1<<62 - 1, 1 << 62, math.MaxInt - n - 1, math.MaxInt - n, math.MaxInt - 1, math.MaxInt}
+				for _, l := range layouts {
+					for _, a := range ext {
+						for _, k := range []string{"R", "C", "B", "H", "T", "A", "Q"} {
+							g.Emit(line(k, l, vals, a), n >= 2, "extreme-int")
+						}
+					}
+				}
+				for _, a := range ext {
+					g.Emit(fmt.Sprintf("S %d %s", a, "0,1;.;2"), true, "extreme-int")
 				}
 			}
 			// Stripe: all tuples of up to three lists from a small pool
